@@ -39,6 +39,24 @@ func shape(f *File, s ast.Stmt) string {
 	return head + "…"
 }
 
+// shapeDeep is shape, except that an `if` whose body does not end in a return / branch is opened one level:
+// `if cond { <shape of every statement of the body> }`.
+func shapeDeep(f *File, s ast.Stmt) string {
+	ifs, ok := s.(*ast.IfStmt)
+	if !ok || ifs.Else != nil || len(ifs.Body.List) == 0 || ifs.Init != nil {
+		return shape(f, s)
+	}
+	switch ifs.Body.List[len(ifs.Body.List)-1].(type) {
+	case *ast.ReturnStmt, *ast.BranchStmt:
+		return shape(f, s)
+	}
+	var in []string
+	for _, b := range ifs.Body.List {
+		in = append(in, shape(f, b))
+	}
+	return "if " + f.src(ifs.Cond) + " { " + strings.Join(in, "; ") + " }"
+}
+
 // genAuthentic (C05): the order of the authentication-relevant calls inside expandPackage, the statement lists
 // of the small decision functions (verifyExpanded, the loop body of checkSums, datahash, the regular-file case of
 // tarfs WriteHeader) and body hashes of the larger modelled functions.
@@ -173,7 +191,7 @@ func genAuthentic() {
 			if rs, ok := s.(*ast.RangeStmt); ok {
 				lazy = append(lazy, "for "+inst.src(rs.Key)+", "+inst.src(rs.Value)+" := range "+inst.src(rs.X))
 				for _, b := range rs.Body.List {
-					lazy = append(lazy, shape(inst, b))
+					lazy = append(lazy, shapeDeep(inst, b))
 				}
 			}
 		}
